@@ -154,6 +154,13 @@ def check_add_measures(ctx, part, before, w):
     for s, e in ms:
         if (s, e) in old:
             continue
+        inside = sorted(x for x in ts_starts if s < x < e)
+        ctx.check()
+        if inside:
+            # a bar is as long as the signature in force says: a signature change cuts it
+            ctx.violation("add_measures-bar-runs-across-a-signature-change", f"added measure [{s},{e}) contains the signature change at {inside[0]}; "
+                          f"measures {ms[:10]}", w)
+            return
         if s in inexact:
             # this bar starts on a rounded barline: its exact length is judged with one position of slack on either side
             (b, bt, _), amb = sigmaps.ts_at(d, s)
@@ -394,11 +401,18 @@ def build_raw_part(rng):
     bar = 4 * q * ts[0] // ts[1]
     # optional signature change on a barline
     t_change = None
+    cut_bar = None
     length = 0
     bars = []
     q_changes = 0
     for i in range(total_bars):
         if i > 0 and t_change is None and rng.random() < 0.25:
+            if rng.random() < 0.4 and bars[-1][1] - bars[-1][0] > 1:
+                # the signature changes before the running bar is full (the bar before the change is cut short by it)
+                k_ = rng.randint(1, bars[-1][1] - bars[-1][0] - 1)
+                bars[-1] = (bars[-1][0], bars[-1][1] - k_)
+                length -= k_
+                cut_bar = len(bars) - 1
             ts = rng.choice([m_ for m_ in meters if (4 * q * m_[0]) % m_[1] == 0] or [ts])
             bar = 4 * q * ts[0] // ts[1]
             part.add(S.TimeSignature(*ts), length)
@@ -428,10 +442,22 @@ def build_raw_part(rng):
             spanning = (a0, b0, i_)
             part.add(S.Measure(number=rng.randint(1, 9)), a0, b0)
             existing += 1
+    late_in_first_new_bar = None
+    if cut_bar is not None and spanning is None and cut_bar + 1 < len(bars) and rng.random() < 0.5:
+        a1, b1 = bars[cut_bar + 1]
+        if b1 - a1 > 1 and b1 <= end:
+            # an existing measure that begins a little after the signature change (inside the first bar of the new metre)
+            late_in_first_new_bar = cut_bar + 1
+            part.add(S.Measure(number=rng.randint(1, 9)), a1 + rng.randint(1, b1 - a1 - 1), b1)
+            existing += 1
     for j_, (a, b) in enumerate(bars):
         if spanning is not None and j_ in (spanning[2] - 1, spanning[2]):
             continue
-        if (mode < 0.3) or (mode < 0.7 and rng.random() < 0.4):
+        if cut_bar is not None and j_ == cut_bar:
+            continue                      # the bar the signature change cuts short is left to add_measures
+        if late_in_first_new_bar is not None and j_ == late_in_first_new_bar:
+            continue
+        if (mode < 0.3) or (mode < 0.7 and rng.random() < 0.4) or (cut_bar is not None and j_ == cut_bar + 1 and rng.random() < 0.7):
             if b <= end:
                 part.add(S.Measure(number=rng.randint(1, 9)), a, b)
                 existing += 1
